@@ -25,7 +25,7 @@ COMPONENTS = {"real": ["ECAgent.Environments.DiscreteWorld.add_cell_component / 
 PROBES = ["src_callable", "src_list", "src_ndarray_int", "src_ndarray_float", "src_const", "src_lookup_list",
           "src_lookup_nd", "alias_after_ndarray", "alias_after_list", "zero_extent_below_populated", "readd_removed_name",
           "remove_unknown_rejected", "lookup_1d", "lookup_2d", "lookup_3d", "get_cell_compared", "generator_object_reused", "readd_live_name_overwrites", "src_lookup_reuse",
-          "src_lookup_rebind", "src_const_reuse", "src_const_tuple", "src_const_subclass"]
+          "src_lookup_rebind", "src_const_reuse", "src_const_tuple", "src_const_subclass", "lookup_mixed_text_and_numbers"]
 TECHNIQUE = "deterministic simulation: seeded add/remove histories of cell components with injected rejected removals and caller-side buffer mutation vs a per-cell reference table"
 LEVEL_TEXT = ("Seeded search over grid shapes, source kinds and add/remove histories; after every operation the column set, the "
               "position column and every cell of every live component must equal the reference (so no add / remove disturbs "
@@ -66,7 +66,8 @@ def generate(rng, tier):
     for _ in range(rng.randint(3, 35 if tier == "thorough" else 25)):
         r = rng.random()
         if r < 0.45:
-            ops.append({"op": "add", "name": rng.choice(names), "src": rng.choice(KINDS), "ndim": rng.choice([1, 2, 3, 3])})
+            ops.append({"op": "add", "name": rng.choice(names), "src": rng.choice(KINDS), "ndim": rng.choice([1, 2, 3, 3]),
+                        "mixed": rng.random() < 0.4})
         elif r < 0.62:
             ops.append({"op": "remove", "name": rng.choice(names)})
         elif r < 0.7:
@@ -81,6 +82,8 @@ def generate(rng, tier):
 def _same(a, b):
     if isinstance(b, tuple):
         return isinstance(a, tuple) and a == b
+    if isinstance(b, str) or isinstance(a, str):
+        return type(a) is type(b) and a == b      # a text label is not the number it spells
     try:
         return bool(a == b)
     except Exception:
@@ -214,6 +217,14 @@ def execute(sc, ctx):
                     table = [[[enc(serial, (x, y, z)) for z in range(d_)] for y in range(h_)] for x in range(w_)]
                     look = lambda p: table[p[0]][p[1]][p[2]]                      # noqa: E731
                 ctx.probe(f"lookup_{nd}d")
+                if src == "lookup_list" and op.get("mixed"):
+                    # a categorical table: some entries are text labels, some numbers
+                    def relabel(t):
+                        if isinstance(t, list):
+                            return [relabel(x) for x in t]
+                        return f"L{t}" if t % 3 == 0 else t
+                    table = relabel(table)
+                    ctx.probe("lookup_mixed_text_and_numbers")
                 vals = [look(p) for p in cells]
                 gen = LookupGenerator(np.array(table) if src == "lookup_nd" else table)
             st, v = ctx.call(env.add_cell_component, name, gen)
